@@ -37,6 +37,39 @@ def c_obs(c):
         cnat(c['num']), c_amap(c['aggs']), c_dmap(c.get('dirs') or []))
 
 
+def c_val(j):
+    if isinstance(j, dict):
+        return '(VObj %s)' % clist('(%d, %s)' % (int(k[1:]), c_val(v)) for k, v in sorted(j.items()))
+    return '(VLeaf %d)' % int(j)
+
+
+def c_cache_case(c):
+    ops, got = [], []
+    for o in c['ops'] or []:
+        ref = clist(str(k) for k in o[1])
+        if o[0] == 'put':
+            ops.append('OPut %s' % ref)
+        else:
+            ops.append('OGet %s' % ref)
+            got.append('None' if o[2] is None else '(Some %s)' % c_val(o[2]))
+    return '{| cc_doc := %s; cc_ops := %s; cc_got := %s |}' % (c_val(c['doc']), clist(ops), clist(got))
+
+
+def run_cache_overlay(ctx, race):
+    """internal/cache is reached with an overlay test (nothing is added to the repository)"""
+    out = os.path.join(ctx.tmp, 'cache.jsonl')
+    rc, log = vlib.go_test_overlay(ctx, './internal/cache',
+                                   {'internal/cache/zz_verif_c01_test.go': os.path.join(vlib.VERIF, 'harness', 'overlay', 'c01_test.go')},
+                                   'TestVerifC01', args=[out, str(ctx.seed), ctx.tier], race=race, timeout=1200)
+    if rc != 0 and 'DATA RACE' in log:
+        return [], log
+    if rc != 0:
+        if re.search(r'\[build failed\]|cannot find package|undefined:', log):
+            raise vlib.HarnessBuildError(log)
+        raise RuntimeError('overlay test failed:\n' + log[-3000:])
+    return [json.loads(l) for l in open(out)], None
+
+
 def ws_key(ws):
     return hashlib.sha1(json.dumps([ws['config'], ws['custom'], ws['files']], sort_keys=True).encode()).hexdigest()[:16]
 
@@ -46,6 +79,14 @@ def canon_key(c):
 
 
 def run(ctx):
+    import time
+    phases = {}
+    t0 = time.time()
+
+    def mark(name):
+        nonlocal t0
+        phases[name] = round(time.time() - t0, 1)
+        t0 = time.time()
     race = not ctx.quick()
     h = vlib.build_harness(ctx, 'c01')
     # thorough tier: the GOMAXPROCS=16 process runs under the race detector (about 7x slower per lint)
@@ -72,6 +113,10 @@ def run(ctx):
         if race and p == 16:
             env['GORACE'] = 'halt_on_error=0 exitcode=66 log_path=' + os.path.join(ctx.tmp, 'race_%d' % p)
         procs.append((p, out, subprocess.Popen(cmd, env=env, stdout=subprocess.PIPE, stderr=subprocess.STDOUT, text=True)))
+    mark('build')
+    # the overlay test of internal/cache runs while the lint processes work
+    cache_recs, cache_race = ([], None) if ctx.replay else run_cache_overlay(ctx, race)
+    mark('basecache_overlay')
     by_ws = {}
     order = []
     race_reports = []
@@ -89,6 +134,7 @@ def run(ctx):
                 order.append(wid)
             by_ws[wid][p] = o
 
+    mark('lint_processes')
     # ---- the property on the implementation's own outputs --------------------------------------
     total_runs = 0
     orders_total = 0
@@ -157,6 +203,18 @@ def run(ctx):
                              'report': rr['report'], 'case': {'ws': by_ws[order[0]][PROCS[0]]['ws']}},
                        signature={'kind': 'data-race', 'key': re.sub(r'0x[0-9a-f]+|\d+', '', rr['report'])[:300]})
 
+    # ---- base cache: concurrent answers must be sound ----------------------------------------------
+    if cache_race:
+        vlib.violation(ctx, {'kind': 'data-race', 'what': 'race detector report in internal/cache', 'report': cache_race[-4000:]},
+                       signature={'kind': 'data-race', 'key': 'internal/cache'})
+    caches = [c for c in cache_recs if c['kind'] == 'cache']
+    for c in cache_recs:
+        if c['kind'] == 'cache-conc' and c['bad']:
+            vlib.violation(ctx, {'kind': 'basecache-answer-unsound', 'case': {'doc': c['doc']}, 'what': c['example'],
+                                 'bad_answers': c['bad'], 'gets': c['gets']},
+                           signature={'kind': 'basecache-answer-unsound', 'key': json.dumps(c['doc'], sort_keys=True)})
+            break
+
     # ---- correspondence with the model -----------------------------------------------------------
     ws_cases, ws_ids = [], []
     for wid in order:
@@ -176,14 +234,25 @@ def run(ctx):
     v = ['From Regal Require Import Check.C01Check.', 'Open Scope N_scope.',
          'Definition wss : list c01_case := ' + clist(ws_cases) + '.',
          'Definition inps : list inp_case := ' + clist(inp) + '.',
+         'Definition caches : list cache_case := ' + clist(c_cache_case(c) for c in caches) + '.',
          'Definition R1 := Eval vm_compute in failing1 case_agrees 0 wss.',
          'Definition R2 := Eval vm_compute in failing1 inp_agrees 0 inps.',
-         'Print R1. Print R2.']
+         'Definition R3 := Eval vm_compute in failing1 cache_agrees 0 caches.',
+         'Print R1. Print R2. Print R3.']
+    mark('predicates')
     rc, cout = vlib.coq_eval(ctx, 'Cases_C01', '\n'.join(v))
+    mark('coq_eval')
     if rc != 0:
         raise RuntimeError('case evaluation failed:\n' + cout[-3000:])
     r1 = vlib.parse_nat_list(cout, 'R1') or []
     r2 = vlib.parse_nat_list(cout, 'R2') or []
+    r3 = vlib.parse_nat_list(cout, 'R3') or []
+    for i in r3[:1]:
+        c = caches[i]
+        vlib.violation(ctx, {'kind': 'basecache-vs-model', 'case': {'doc': c['doc'], 'ops': c['ops']},
+                             'what': 'a sequential history of Put/Get on the real base cache answered differently from Model.BaseCache.replay',
+                             'relation': 'Check.C01Check.cache_agrees'},
+                       signature={'kind': 'basecache-vs-model', 'key': json.dumps([c['doc'], c['ops']], sort_keys=True)})
     for i in r1:
         wid = ws_ids[i]
         if wid in bad_ws:
@@ -215,8 +284,10 @@ def run(ctx):
         'lint_runs': total_runs, 'workspaces': len(order), 'gomaxprocs': PROCS, 'race_detector': race,
         'distinct_merge_orders_observed': orders_total,
         'input_from_paths_cases': len(input_cases), 'h_aggperm_shuffles': aggperm_n,
-        'mismatch_model_ws': len(r1), 'mismatch_model_inputs': len(r2), 'workspaces_with_differing_reports': len(bad_ws),
-        'histogram': hist,
+        'basecache_histories': len(caches), 'basecache_concurrent_gets': sum(c.get('gets', 0) for c in cache_recs if c['kind'] == 'cache-conc'),
+        'basecache_concurrent_hits': sum(c.get('hits', 0) for c in cache_recs if c['kind'] == 'cache-conc'),
+        'mismatch_model_ws': len(r1), 'mismatch_model_inputs': len(r2), 'mismatch_model_basecache': len(r3), 'workspaces_with_differing_reports': len(bad_ws),
+        'histogram': hist, 'phase_seconds': phases,
         'samples': [] if not some else [{'files': [f['name'] for f in some['ws']['files']], 'config': some['ws']['config'],
                                          'args': some['variants'][:2], 'summary': {k: some['canons'][0][k] for k in ('scanned', 'failed', 'skipped', 'num')} if some['canons'] else None}],
         'exhaustive': False,
@@ -227,7 +298,7 @@ def run(ctx):
         'the Go scheduler is modelled as any interleaving of the atomic steps Lock/Unlock/load/store of the extracted goroutine shape; '
         'data races outside the modelled shared variables are only looked for by the race detector (thorough tier)',
         'goshape flattens control flow and treats all writes of one field in the critical section as one update',
-        'internal/cache BaseCache is not used by Linter.Lint unless WithBaseCache is set (LSP only); not modelled here',
+        'internal/cache BaseCache: its RWMutex is taken to make Get/Put atomic (histories are sequences); values are JSON-like trees',
     ])
 
 
